@@ -308,6 +308,7 @@ func (p *rpcProver) verify(tag string, res any, b *chaingen.Block, req *proofReq
 		return
 	}
 	var ses []PEntry
+	var lists [][]PEntry
 	inOrder := true
 	for i := range sp {
 		es, err := parseNodes(sp[i])
@@ -316,6 +317,7 @@ func (p *rpcProver) verify(tag string, res any, b *chaingen.Block, req *proofReq
 			return
 		}
 		ses = append(ses, es...)
+		lists = append(lists, es)
 		// observation only (never a verdict, never logged): does list i belong to requested contract i?
 		if mc := post.Contracts[req.storage[i].addr]; mc != nil && len(mc.Storage) > 0 {
 			root := refstate.StorageRoot(mc)
@@ -335,6 +337,40 @@ func (p *rpcProver) verify(tag string, res any, b *chaingen.Block, req *proofReq
 	}
 	if !checkHashes("storage", ses, refmpt.Pedersen) {
 		return
+	}
+	// every requested contract has ONE list that proves all its keys on its own (the answer is one node
+	// mapping per contract; which position it takes is not judged - the lists may come permuted): a
+	// verifier that walks a contract's own mapping must not need nodes of another contract's mapping
+	for j, s := range req.storage {
+		mc := post.Contracts[s.addr]
+		var root felt.Felt
+		if mc != nil {
+			root = refstate.StorageRoot(mc)
+		}
+		own := false
+		for i := range lists {
+			all := true
+			for k := range s.keys {
+				var want felt.Felt
+				if mc != nil {
+					want = mc.Storage[s.keys[k]]
+				}
+				r, err := RefVerify(&root, &s.keys[k], lists[i], trieHeight, refmpt.Pedersen)
+				if err != nil || !r.Value.Equal(&want) {
+					all = false
+					break
+				}
+			}
+			if all {
+				own = true
+				break
+			}
+		}
+		c.Evals++
+		if !own {
+			p.fail("storage_proof_incomplete", "no_list_proves_a_contracts_slots_on_its_own", "%s: none of the %d contracts_storage_proofs lists proves all %d requested slots of contract %s (request position %d) by itself, although the union of the lists does", tag, len(lists), len(s.keys), s.addr.String(), j)
+			return
+		}
 	}
 	for _, s := range req.storage {
 		mc := post.Contracts[s.addr]
